@@ -495,10 +495,19 @@ def make_twin(text, spans, ex):
     proved = set(q for q, _, s in ex.functions if s in ('proved',))
     for t, origin in ex.out.chunks:
         if origin[0] == 'contract' and origin[2] == 'spec' and origin[1] in proved and re.search(r'\bensures\b', t):
-            tt = t.rstrip()
-            if not tt.endswith(','):
-                tt += ','
-            tt += '\n        crate::__canary_%d(), // must-fail twin\n' % len(expect)
+            canary = '        crate::__canary_%d(), // must-fail twin\n' % len(expect)
+            md = re.search(r'(?m)^\s*decreases\b', t)
+            if md:
+                # the extra clause belongs to `ensures`, not to a trailing `decreases`
+                head = t[:md.start()].rstrip()
+                if not head.endswith(','):
+                    head += ','
+                tt = head + '\n' + canary + t[md.start():]
+            else:
+                tt = t.rstrip()
+                if not tt.endswith(','):
+                    tt += ','
+                tt += '\n' + canary
             out.append(tt)
             expect.append(origin[1])
         else:
